@@ -50,6 +50,8 @@ enum Supply {
 
 #[derive(Clone, Debug)]
 struct Job {
+	/// `-f` is written after the operand instead of before it
+	f_last: bool,
 	fopt: Option<F>,
 	name: String,
 	content: usize,
@@ -58,13 +60,13 @@ struct Job {
 }
 
 fn case_json(j: &Job) -> Value {
-	json!({"kind": "resolution", "f": j.fopt.map(F::name), "name": j.name, "content": contents()[j.content].0, "supply": format!("{:?}", j.supply), "to": j.to.name()})
+	json!({"kind": "resolution", "f_last": j.f_last, "f": j.fopt.map(F::name), "name": j.name, "content": contents()[j.content].0, "supply": format!("{:?}", j.supply), "to": j.to.name()})
 }
 
 fn run_job(dir: &Path, j: &Job, idx: usize) -> ProcOut {
 	let data = &contents()[j.content].1;
 	let mut args: Vec<String> = vec![];
-	if let Some(f) = j.fopt {
+	if let (Some(f), false) = (j.fopt, j.f_last) {
 		args.push(format!("-f{}", f.letter()));
 	}
 	args.push(format!("-t{}", j.to.letter()));
@@ -94,6 +96,10 @@ fn run_job(dir: &Path, j: &Job, idx: usize) -> ProcOut {
 			stdin = Stdin::Bytes(data.clone());
 			args.push("-".into());
 		}
+	}
+	if let (Some(f), true) = (j.fopt, j.f_last) {
+		args.push("-f".into());
+		args.push(f.name().into());
 	}
 	let argv: Vec<&str> = args.iter().map(String::as_str).collect();
 	let mut sp = Spawn::new(&sub, &argv);
@@ -182,7 +188,10 @@ pub fn run(ctx: &Ctx) -> CheckOutput {
 				for supply in [Supply::File, Supply::Fifo] {
 					let targets: &[F] = &F::ALL;
 					for &to in targets {
-						jobs.push(Job { fopt, name: name.clone(), content, supply: supply.clone(), to });
+						jobs.push(Job { f_last: false, fopt, name: name.clone(), content, supply: supply.clone(), to });
+						if fopt.is_some() && to == F::Json {
+							jobs.push(Job { f_last: true, fopt, name: name.clone(), content, supply: supply.clone(), to });
+						}
 					}
 				}
 			}
@@ -190,7 +199,7 @@ pub fn run(ctx: &Ctx) -> CheckOutput {
 		for content in 0..ncontents {
 			for supply in [Supply::StdinImplicit, Supply::StdinDash] {
 				for to in F::ALL {
-					jobs.push(Job { fopt, name: String::new(), content, supply: supply.clone(), to });
+					jobs.push(Job { f_last: false, fopt, name: String::new(), content, supply: supply.clone(), to });
 				}
 			}
 		}
@@ -306,7 +315,7 @@ pub fn run(ctx: &Ctx) -> CheckOutput {
 	CheckOutput {
 		level: "exploration",
 		tally,
-		rule: format!("full product of -f in {{absent, json, msgpack, toml, yaml}} x {} file names (every letter-casing of json, yaml, yml, toml{}; multi-dot names, hidden '.json', trailing dot, no extension, unknown and misleading extensions) x {} contents (each format, valid in two formats, multi-document, invalid, empty) x supply in {{regular file (mmap), FIFO, implicit stdin, '-'}} x targets, through the real binary (debug and release alternating); expected source = -f, else the (case-insensitive, last) extension, else detection; stdout and exit status must equal the library's result for that source on the same bytes (slice for regular files, reader otherwise). Plus input lists with '-' first/middle/last, '-' twice, a directory, paths below a directory with a misleading name, compared with one in-process Translator; plus multi-document streams on stdin delivered by a bursty producer in two packets split at EVERY byte offset (second packet only after xt drained the first).", names.len(), if thorough { " and msgpack" } else { " and 6 casings of msgpack" }, ncontents),
+		rule: format!("full product of -f in {{absent, json, msgpack, toml, yaml}} x {} file names (every letter-casing of json, yaml, yml, toml{}; multi-dot names, hidden '.json', trailing dot, no extension, unknown and misleading extensions) x {} contents (each format, valid in two formats, multi-document, invalid, empty) x supply in {{regular file (mmap), FIFO, implicit stdin, '-'}} x targets (the -f option written before and, for the JSON target, also after the operand), through the real binary (debug and release alternating); expected source = -f, else the (case-insensitive, last) extension, else detection; stdout and exit status must equal the library's result for that source on the same bytes (slice for regular files, reader otherwise). Plus input lists with '-' first/middle/last, '-' twice, a directory, paths below a directory with a misleading name, compared with one in-process Translator; plus multi-document streams on stdin delivered by a bursty producer in two packets split at EVERY byte offset (second packet only after xt drained the first).", names.len(), if thorough { " and msgpack" } else { " and 6 casings of msgpack" }, ncontents),
 		exhaustive: true,
 		bounds: json!({"names": names.len(), "contents": ncontents}),
 		assumptions: vec!["where the library's slice and reader results differ (C02's known classes) either is accepted and the case is tallied".into()],
@@ -323,6 +332,7 @@ pub fn replay(case: &Value) -> Option<String> {
 	let w = WorkDir::new("c14-replay");
 	let cname = case["content"].as_str().unwrap();
 	let j = Job {
+		f_last: case["f_last"].as_bool().unwrap_or(false),
 		fopt: case["f"].as_str().and_then(F::parse),
 		name: case["name"].as_str().unwrap().to_string(),
 		content: contents().iter().position(|c| c.0 == cname).unwrap(),
